@@ -202,6 +202,9 @@ pub struct SimCfg {
     pub trunc_paths: Vec<String>,
     pub max_steps: u64,
     pub max_alloc_bytes: u64,
+    /// hard I/O faults are one-shot only (no "the medium stays broken" variants)
+    #[serde(default)]
+    pub no_sticky_faults: bool,
 }
 
 impl Default for SimCfg {
@@ -223,6 +226,7 @@ impl Default for SimCfg {
             trunc_paths: vec![],
             max_steps: 3_000_000,
             max_alloc_bytes: 2 << 30,
+            no_sticky_faults: false,
         }
     }
 }
@@ -1406,6 +1410,7 @@ pub fn hook_read(fd: i32, buf: &mut [u8]) -> Option<Result<usize, i32>> {
         let rate = s.cfg.io_fault_rate;
         let hard_ok = s.hard_faults < s.cfg.max_hard_faults;
         let damage_ok = s.cfg.trunc_paths.is_empty() || s.cfg.trunc_paths.iter().any(|t| path.contains(t.as_str()));
+        let no_sticky = s.cfg.no_sticky_faults;
         let nn = n as u64;
         let f = s.dec.fault_at("io", idx, |r| {
             if !r.chance(rate) {
@@ -1431,7 +1436,7 @@ pub fn hook_read(fd: i32, buf: &mut [u8]) -> Option<Result<usize, i32>> {
             let arg = if k == "short_read" {
                 if r.chance(0.3) { 1 } else { 1 + r.below(nn - 1) }
             } else if k == "eio_read" {
-                r.below(2) // 1 = sticky: the medium stays unreadable
+                if no_sticky { 0 } else { r.below(2) } // 1 = sticky: the medium stays unreadable
             } else if k == "bitflip_read" {
                 r.below(nn * 8)
             } else {
